@@ -1835,8 +1835,8 @@ def explore_I(ctx, rep, workers):
             if not (full or not ctx.quick):
                 one = one[:2] + [p for p in one[2:] if rng.random() < 0.15]
             ps = set(one)
-            # (family P has 19 pairs with every one-preemption plan already: fewer random plans)
-            n2 = (30 if ctx.quick else (120 if family == 'P' else 800)) + len(ps)
+            # (family P has 19 pairs with every one-preemption plan in every tier: the random plans on top stay at the quick tier's number, or the thorough run takes over 40 minutes)
+            n2 = (30 if (ctx.quick or family == 'P') else 800) + len(ps)
             while len(ps) < n2:
                 ps.add(random_plan(rng, 2, 2, K))
             sets.append((specs, sorted(ps, key=str), K, full or not ctx.quick))
@@ -1845,7 +1845,7 @@ def explore_I(ctx, rep, workers):
                 continue
             K = max(len(progs[q]) for q in trio) + 1
             ps = set()
-            while len(ps) < (60 if ctx.quick else (150 if family == 'P' else 800)):
+            while len(ps) < (60 if (ctx.quick or family == 'P') else 800):
                 ps.add(random_plan(rng, 3, 2, K))
             sets.append((trio, sorted(ps, key=str), K, False))
         for trio in I_TRIOS_FULL[family]:
@@ -1853,7 +1853,7 @@ def explore_I(ctx, rep, workers):
                 continue
             K = max(len(progs[q]) for q in trio) + 1
             ps = set(one_preemption_plans(3, K))
-            n2 = (40 if ctx.quick else (150 if family == 'P' else 800)) + len(ps)
+            n2 = (40 if (ctx.quick or family == 'P') else 800) + len(ps)
             while len(ps) < n2:
                 ps.add(random_plan(rng, 3, 2, K))
             sets.append((trio, sorted(ps, key=str), K, True))
